@@ -12,7 +12,30 @@ void Ctx::begin_case(long long idx, const std::string &extra_json)
   case_json = "{\"index\":" + std::to_string(idx) + ",\"family\":" + vf::jstr(args.family) + ",\"oracle\":" + vf::jstr(oracle) + ",\"tier\":" + vf::jstr(args.tier) +
               (extra_json.empty() ? "" : "," + extra_json) + "}";
   vf::set_current_case(case_json, oracle + ":" + args.family);
-  if ((idx & 0xff) == 0 || only_index >= 0) vf::watchdog(60);
+  alarm(10); // per-case time limit (a parse takes microseconds)
+}
+
+static Ctx *g_ctx = nullptr;
+static void on_alarm(int sig)
+{
+  if (g_ctx && g_ctx->armed) {
+    g_ctx->armed = false;
+    siglongjmp(g_ctx->jb, 1);
+  }
+  vf::on_fatal_signal(sig);
+}
+
+void Ctx::on_hang()
+{
+  alarm(0);
+  vf::ledger().live.clear(); // whatever the interrupted call held is lost
+  viol((oracle == "all" ? std::string("C02") : oracle) + ":hang:" + args.family, "a decoding entry point did not return within 10 s on this input");
+  rep.count("hangs");
+  if (++hangs >= 3 && !replaying) {
+    rep.exhaustive = false;
+    rep.bound      = "ABANDONED after 3 inputs on which a call did not return (case index " + std::to_string(index) + "): " + rep.bound;
+    abort_family   = true;
+  }
 }
 
 static std::string hexfield(const Bytes &b)
@@ -35,7 +58,8 @@ static bool deadline_hit(Ctx &c, long long idx, long long total, unsigned &tick)
   if ((++tick & 63) != 0) return false;
   if (!time_up(c)) return false;
   c.rep.exhaustive = false;
-  c.rep.bound += " | DEADLINE: shard " + std::to_string(c.args.shard) + " stopped at case index " + std::to_string(idx) + " of " + std::to_string(total) + " (all indices of this shard below it were executed)";
+  c.rep.bound      = "CAPPED BY DEADLINE (shard " + std::to_string(c.args.shard) + " stopped at case index " + std::to_string(idx) + " of " + std::to_string(total) + "; every index of this shard below it was executed) of: " + c.rep.bound;
+  c.rep.count("deadline_stops");
   return true;
 }
 
@@ -56,8 +80,17 @@ void fam_names(Ctx &c)
   for (int n = 1; n <= N; n++) {
     int              A = n + 8;
     std::vector<int> d(n, 0);
+    bool             first = true;
     while (true) {
-      if (c.take(idx)) {
+      if (!first) { // advance the odometer (at the top, so that `continue` is safe inside the body)
+        idx++;
+        int i = n - 1;
+        while (i >= 0 && ++d[i] == A) d[i--] = 0;
+        if (i < 0) break;
+      }
+      first = false;
+      if (!c.take(idx)) continue;
+      {
         if (deadline_hit(c, idx, total, tick)) return;
         // build
         std::vector<size_t> off(n);
@@ -98,6 +131,7 @@ void fam_names(Ctx &c)
         m.push_back(0);
         m.push_back(1);
         c.begin_case(idx, hexfield(m));
+        EXC_GUARD(c);
         if (seen.insert(m.data(), m.size())) c.rep.states++;
         HeapBuf hb(m.data(), m.size());
         for (int i = 0; i < n; i++) {
@@ -125,11 +159,8 @@ void fam_names(Ctx &c)
         }
         if (c.rep.samples.size() < 3 && (idx % 977) == 0) c.rep.sample(c.case_json);
       }
-      idx++;
-      int i = n - 1;
-      while (i >= 0 && ++d[i] == A) d[i--] = 0;
-      if (i < 0) break;
     }
+    idx++;
   }
 }
 
@@ -183,6 +214,7 @@ void fam_closure(Ctx &c, bool corpus)
         continue;
       }
       c.begin_case(idx, "\"desc\":" + vf::jstr(B.desc + " " + md) + "," + hexfield(m));
+      EXC_GUARD(c);
       if (k > 0) c.rep.transitions++;
       c.rep.count("distinct_inputs_executed");
       HeapBuf  hb(m.data(), m.size());
@@ -195,7 +227,7 @@ void fam_closure(Ctx &c, bool corpus)
       if (c.want("C02")) run_c02(c, ci);
       if (c.want("C04")) run_c04(c, ci);
       if (c.want("C18")) run_c18(c, ci);
-      if (c.want("C03") && k == 0) run_roundtrip_wire(c, hb.p, hb.n, corpus ? "corpus" : "base");
+      if (c.want("C03") && k == 0 && (corpus || B.valid)) run_roundtrip_wire(c, hb.p, hb.n, corpus ? "corpus" : "base");
       if (c.rep.samples.size() < 4 && (k == 0 || k == n / 2) && (bi % 97) == 3) c.rep.sample(c.case_json);
     }
   }
@@ -232,6 +264,7 @@ void fam_sizes(Ctx &c)
         if (pat == 2 && sz >= 17) valid = false; // trailing zero padding after the question: header says 0 RRs
       }
       c.begin_case(idx, "\"size\":" + std::to_string(sz) + ",\"pattern\":" + std::to_string(pat));
+      EXC_GUARD(c);
       c.rep.states++;
       HeapBuf  hb(m.data(), m.size());
       CaseInfo ci{ hb.p, hb.n };
@@ -328,7 +361,35 @@ int main(int argc, char **argv)
   c.oracle   = c.args.get("oracle", "all");
   c.thorough = c.args.tier == "thorough";
   c.t_end    = vf::now_s() + (c.args.deadline > 1e9 ? 1e9 : c.args.deadline) - 3;
+  if (!c.replaying && !c.args.out.empty() && c.args.resume > 0) {
+    // restarted by the driver after a crash of this shard: the driver gives up (internal error, no verdict)
+    // after 25 restarts, so stop enumerating before that - the crashes already are the violations
+    std::string cf = c.args.out + ".restarts";
+    int         n  = 0;
+    if (FILE *f = fopen(cf.c_str(), "r")) {
+      if (fscanf(f, "%d", &n) != 1) n = 0;
+      fclose(f);
+    }
+    n++;
+    if (FILE *f = fopen(cf.c_str(), "w")) {
+      fprintf(f, "%d\n", n);
+      fclose(f);
+    }
+    if (n >= 12) {
+      c.rep.engine     = "EX-C";
+      c.rep.family     = c.args.family;
+      c.rep.tier       = c.args.tier;
+      c.rep.exhaustive = false;
+      c.rep.bound      = "ABANDONED: shard " + std::to_string(c.args.shard) + " crashed " + std::to_string(n) + " times (each crash is reported as a violation); not resumed beyond case index " + std::to_string(c.args.resume);
+      c.rep.outcome("abandoned-after-crashes");
+      c.rep.outcome("abandoned-after-crashes-2");
+      c.rep.write(c.args.out);
+      return 0;
+    }
+  }
   if (!c.args.out.empty()) vf::install_crash_handler(c.args.out + ".crash");
+  g_ctx = &c;
+  signal(SIGALRM, on_alarm);
   c.rep.engine = "EX-C";
   c.rep.family = c.args.family;
   c.rep.tier   = c.args.tier;
@@ -344,7 +405,8 @@ int main(int argc, char **argv)
     fprintf(stderr, "unknown family %s\n", f.c_str());
     return 3;
   }
-  vf::watchdog(0);
+  alarm(0);
+  c.armed = false;
   if (c.replaying) {
     if (c.index < 0) {
       printf("case index %lld does not exist in this family/tier\n", c.only_index);
